@@ -151,6 +151,7 @@ theorem yearPiece_four (a b c d : Char) (r : List Char) (ha : isDigit a = true) 
 
 def isWs (c : Char) : Bool :=
   c = ' ' || c = '\t' || c = '\n' || c = '\r' || c = Char.ofNat 11 || c = Char.ofNat 12
+    || c = Char.ofNat 28 || c = Char.ofNat 29 || c = Char.ofNat 30 || c = Char.ofNat 31
 
 theorem parseTime_nil : parseTime [] = none := rfl
 
@@ -175,18 +176,20 @@ theorem parseTime_paren (r : List Char) (h : ∀ c r', r = c :: r' → isDigit c
   | nil => rfl
   | cons c r =>
     obtain ⟨_, q1, q2, q3, q4, q5, q6, q7, q8⟩ := dg_ne c (h c r rfl)
-    simp [parseTime, List.dropWhile, q1, q2, q4, q5, q6, q7, q8]
+    obtain ⟨q9, q10, q11, q12⟩ := dg_ne_sep c (h c r rfl)
+    simp [parseTime, List.dropWhile, q1, q2, q4, q5, q6, q7, q8, q9, q10, q11, q12]
 
 /-- `HH:MM` and the remainder does not go on with `:` — no seconds. -/
 theorem parseTime_hm (h1 h2 m1 m2 : Char) (r : List Char) (g1 : isDigit h1 = true) (g2 : isDigit h2 = true)
     (g3 : isDigit m1 = true) (g4 : isDigit m2 = true) (hr : ∀ r', r ≠ ':' :: r') :
     parseTime (h1 :: h2 :: ':' :: m1 :: m2 :: r) = some ([h1, h2], [m1, m2], none) := by
   obtain ⟨_, q1, q2, q3, q4, q5, q6, q7, q8⟩ := dg_ne h1 g1
+  obtain ⟨q9, q10, q11, q12⟩ := dg_ne_sep h1 g1
   cases r with
-  | nil => simp [parseTime, List.dropWhile, q1, q2, q4, q5, q6, q7, q8, g1, g2, g3, g4]
+  | nil => simp [parseTime, List.dropWhile, q1, q2, q4, q5, q6, q7, q8, q9, q10, q11, q12, g1, g2, g3, g4]
   | cons c r =>
     have hc : c ≠ ':' := fun e => hr r (by rw [e])
-    simp [parseTime, List.dropWhile, q1, q2, q4, q5, q6, q7, q8, g1, g2, g3, g4, hc]
+    simp [parseTime, List.dropWhile, q1, q2, q4, q5, q6, q7, q8, q9, q10, q11, q12, g1, g2, g3, g4, hc]
 
 /-- `HH:MM:SS`, arbitrary remainder. -/
 theorem parseTime_hms (h1 h2 m1 m2 s1 s2 : Char) (r : List Char) (g1 : isDigit h1 = true)
@@ -194,7 +197,8 @@ theorem parseTime_hms (h1 h2 m1 m2 s1 s2 : Char) (r : List Char) (g1 : isDigit h
     (g6 : isDigit s2 = true) :
     parseTime (h1 :: h2 :: ':' :: m1 :: m2 :: ':' :: s1 :: s2 :: r) = some ([h1, h2], [m1, m2], some [s1, s2]) := by
   obtain ⟨_, q1, q2, q3, q4, q5, q6, q7, q8⟩ := dg_ne h1 g1
-  simp [parseTime, List.dropWhile, q1, q2, q4, q5, q6, q7, q8, g1, g2, g3, g4, g5, g6]
+  obtain ⟨q9, q10, q11, q12⟩ := dg_ne_sep h1 g1
+  simp [parseTime, List.dropWhile, q1, q2, q4, q5, q6, q7, q8, q9, q10, q11, q12, g1, g2, g3, g4, g5, g6]
 
 /-! ### the texts a rendered spelling is made of (shape + value) -/
 
@@ -438,14 +442,14 @@ theorem parseDate_dmy (s : List Char) (mt : DateMatch) (h0 : matchYMD s = none) 
   rfl
 
 /-- a text `strptime` accepts for a field of `lo..hi` digits, with its value. -/
-def Field (cs : List Char) (lo hi v : Nat) : Prop :=
+def DigField (cs : List Char) (lo hi v : Nat) : Prop :=
   lo ≤ cs.length ∧ cs.length ≤ hi ∧ cs.all isDigit = true ∧ digitsToNat cs = v
 
-theorem Pair.field {cs : List Char} {v : Nat} (h : Pair cs v) : Field cs 1 2 v := by
+theorem Pair.field {cs : List Char} {v : Nat} (h : Pair cs v) : DigField cs 1 2 v := by
   obtain ⟨a, b, rfl, ha, hb, hv⟩ := h
   exact ⟨by simp, by simp, by simp [ha, hb], hv⟩
 
-theorem Num12.field {cs : List Char} {v : Nat} (h : Num12 cs v) : Field cs 1 2 v := by
+theorem Num12.field {cs : List Char} {v : Nat} (h : Num12 cs v) : DigField cs 1 2 v := by
   rcases h with ⟨a, rfl, ha, hv⟩ | h
   · exact ⟨by simp, by simp, by simp [ha], hv⟩
   · exact h.field
@@ -453,8 +457,8 @@ theorem Num12.field {cs : List Char} {v : Nat} (h : Num12 cs v) : Field cs 1 2 v
 theorem Num12.length_ne3 {cs : List Char} {v : Nat} (h : Num12 cs v) : cs.length ≠ 3 := by
   rcases h with ⟨a, rfl, _⟩ | ⟨a, b, rfl, _⟩ <;> simp
 
-theorem field_zero2 : Field ['0', '0'] 1 2 0 := ⟨by decide, by decide, by decide, rfl⟩
-theorem field_one2 : Field ['0', '1'] 1 2 1 := ⟨by decide, by decide, by decide, rfl⟩
+theorem field_zero2 : DigField ['0', '0'] 1 2 0 := ⟨by decide, by decide, by decide, rfl⟩
+theorem field_one2 : DigField ['0', '1'] 1 2 1 := ⟨by decide, by decide, by decide, rfl⟩
 
 def fixYear (y : List Char) : List Char :=
   if y.length = 2 then (if digitsToNat y ≥ 93 then ['1','9'] else ['2','0']) ++ y else y
@@ -481,7 +485,7 @@ theorem digitsToNat_4 (p q a b : Char) : digitsToNat [p, q, a, b] = 100 * digits
   simp only [digitsToNat, List.foldl]
   omega
 
-theorem fixYear_field (y : List Char) (Y : Nat) (hy : YearTxt y Y) : Field (fixYear y) 4 4 Y := by
+theorem fixYear_field (y : List Char) (Y : Nat) (hy : YearTxt y Y) : DigField (fixYear y) 4 4 Y := by
   rcases hy with ⟨a, b, c, d, rfl, ha, hb, hc, hd, hv⟩ | ⟨⟨a, b, rfl, ha, hb, hv⟩, h1, h2⟩
   · exact ⟨by simp [fixYear], by simp [fixYear], by simp [fixYear, ha, hb, hc, hd], by simpa [fixYear] using hv⟩
   · have h19 : digitsToNat ['1', '9'] = 19 := rfl
@@ -498,14 +502,14 @@ theorem fixYear_field (y : List Char) (Y : Nat) (hy : YearTxt y Y) : Field (fixY
       rw [e]
       exact ⟨by simp, by simp, by simp [ha, hb, d2, d0], by rw [digitsToNat_4, h20, hv]; omega⟩
 
-theorem natDigits_field12 (mo : Nat) (h : mo < 100) : Field (natDigits mo) 1 2 mo := by
+theorem natDigits_field12 (mo : Nat) (h : mo < 100) : DigField (natDigits mo) 1 2 mo := by
   refine ⟨?_, (L.natDigits_length mo 2 (by decide)).mpr (by omega), L.natDigits_all mo, L.digitsToNat_natDigits mo⟩
   cases hn : natDigits mo with
   | nil => exact absurd hn (L.natDigits_ne_nil mo)
   | cons _ _ => simp
 
 theorem fixMonth_field (m : List Char) (mo : Nat) (hm : MonTxt m mo) (h12 : mo ≤ 12) :
-    ∃ m', fixMonth m = some m' ∧ Field m' 1 2 mo := by
+    ∃ m', fixMonth m = some m' ∧ DigField m' 1 2 mo := by
   rcases hm with hn | ⟨a, b, c, rfl, _, _, _, _, hl⟩
   · exact ⟨m, by simp [fixMonth, hn.length_ne3], hn.field⟩
   · refine ⟨natDigits mo, ?_, natDigits_field12 mo (by omega)⟩
@@ -524,21 +528,21 @@ def TimeVal (tm : Option (List Char × List Char × Option (List Char))) (H M S 
   | some (h, mi, none) => Pair h H ∧ Pair mi M ∧ S = 0
   | some (h, mi, some s) => Pair h H ∧ Pair mi M ∧ Pair s S
 
-theorem fixDay_field (d : Option (List Char)) (dv : Nat) (h : DayVal d dv) : Field (fixDay d) 1 2 dv := by
+theorem fixDay_field (d : Option (List Char)) (dv : Nat) (h : DayVal d dv) : DigField (fixDay d) 1 2 dv := by
   cases d with
   | none => simp only [DayVal] at h; subst h; exact field_one2
   | some ds => exact Num12.field h
 
 theorem fixTime_field (tm : Option (List Char × List Char × Option (List Char))) (H M S : Nat)
     (h : TimeVal tm H M S) :
-    Field (fixTime tm).1 1 2 H ∧ Field (fixTime tm).2.1 1 2 M ∧ Field (fixTime tm).2.2 1 2 S := by
+    DigField (fixTime tm).1 1 2 H ∧ DigField (fixTime tm).2.1 1 2 M ∧ DigField (fixTime tm).2.2 1 2 S := by
   match tm, h with
   | none, ⟨h1, h2, h3⟩ => subst h1 h2 h3; exact ⟨field_zero2, field_zero2, field_zero2⟩
   | some (h, mi, none), ⟨a, b, h3⟩ => subst h3; exact ⟨a.field, b.field, field_zero2⟩
   | some (h, mi, some s), ⟨a, b, c⟩ => exact ⟨a.field, b.field, c.field⟩
 
-theorem strptime_fields (y m d H M S : List Char) (t : DT) (hy : Field y 4 4 t.y) (hm : Field m 1 2 t.mo)
-    (hd : Field d 1 2 t.d) (hH : Field H 1 2 t.H) (hM : Field M 1 2 t.M) (hS : Field S 1 2 t.S)
+theorem strptime_fields (y m d H M S : List Char) (t : DT) (hy : DigField y 4 4 t.y) (hm : DigField m 1 2 t.mo)
+    (hd : DigField d 1 2 t.d) (hH : DigField H 1 2 t.H) (hM : DigField M 1 2 t.M) (hS : DigField S 1 2 t.S)
     (hv : t.Valid = true) : strptimeFixed y m d H M S = some t := by
   obtain ⟨ty, tmo, td, tH, tM, tS⟩ := t
   obtain ⟨y1, y2, y3, rfl⟩ := hy
